@@ -90,8 +90,11 @@ def run_audit(args) -> int:
     for f in static["findings"]:
         changed.append(f"static {f['rule']} at exponax/{f['where']}: {f['detail']}")
 
+    import re as _re
+
+    sel = (lambda k, m: bool(_re.search(args.ops_regex, k))) if args.ops_regex else None
     ex = Explorer(
-        repo=args.repo, jobs=args.jobs, seeds=args.seeds, seed_base=args.seed_base, isolate_reference=args.tier == "thorough",
+        repo=args.repo, jobs=args.jobs, seeds=args.seeds, seed_base=args.seed_base, isolate_reference=args.tier == "thorough", select=sel,
         replay_sample=args.replay_sample, cover=args.cover, cold_start=args.cold_start, run_wall_cap=args.run_wall_cap,
         worker_timeout=args.worker_timeout, min_budget=args.min_budget, replay_dir=args.replay_dir, label="premise",
         crash_points=96 if args.tier == "quick" else None, switch_points=64 if args.tier == "quick" else None,
@@ -104,7 +107,8 @@ def run_audit(args) -> int:
             ex.build_reference()
             for sess, ks in ex.report["reference"]["ops_raising_in_reference"].items():
                 for k in ks:
-                    ex.errors.append(f"reference op raised ({sess}): {k}")
+                    if not k.startswith("reject:"):  # rejection operations are *expected* to raise
+                        ex.errors.append(f"reference op raised ({sess}): {k}")
             if not ex.errors:
                 good = ex.simulate()
                 # leg 2: seams
@@ -199,6 +203,7 @@ def main():
     ap.add_argument("--replay")
     ap.add_argument("--replay-dir", default=os.path.join(HERE, "replays"))
     ap.add_argument("--report", default=None, help="where to write the JSON report (default audit/out/report-<tier>.json)")
+    ap.add_argument("--ops-regex", default=None, help="restrict the dynamic legs to operations whose key matches (sensitivity runs; the audit proper uses all)")
     ap.add_argument("--selfcheck", action="store_true")
     args = ap.parse_args()
     if args.seeds is None:
